@@ -95,6 +95,8 @@ class View:
                 s.cause = None
                 if k == "exc_same":
                     k = "exc"
+                if k == "res_none":
+                    k = "res"
                 if k == "res" and not rc_on:
                     k = "ok"
                 if k == "sp" and s.out[1] in ("nested_open", "timeout"):
